@@ -39,6 +39,8 @@ class Net:
                 ent = [host]
             else:
                 ent = ["10.9.8.7"]
+        if isinstance(port, str) and port.isdigit():
+            port = int(port)  # the real resolver accepts a numeric service string and answers with the number
         out = []
         for ip in ent:
             if ":" in ip:
